@@ -419,7 +419,7 @@ def job_ground_accuracy(ctx: Ctx, what):
         ecs, eal, ecf = [atc[0].astype(float), atc[1].astype(float), np.zeros(3)], [2.0, 0.8, 1.0], [0.9, 0.2, 0.3]
         dens = dens + rho(mg.points, ecs, eal, ecf)
         vex = vex + pot(q, ecs, eal, ecf)
-        basis = np.array([0.8, 2.0, 5.0])
+        basis = np.array([5.0, 0.8, 2.0])        # deliberately not ascending: the fitted exponents must stay paired with their weights
         v2 = solve_poisson_robust(mg, dens, itf, atn, atc, split2=True, alphas_basis=basis, include_origin=True, remove_large_pts=10.0)(q)
         v1 = solve_poisson_robust(mg, dens, itf, atn, atc, include_origin=True, remove_large_pts=10.0)(q)
         e2, e1 = float(np.max(np.abs(v2 - vex))), float(np.max(np.abs(v1 - vex)))
@@ -429,7 +429,7 @@ def job_ground_accuracy(ctx: Ctx, what):
             bad["robust solver (split 1), two centres, vs analytic potential"] = e1
         label = "robust solver with and without the NNLS split matches the analytic potential of core model + smooth Gaussians on two centres (2e-2)"
     elif what == "atom":
-        ag = AtomGrid(rg, degrees=[9])
+        ag = AtomGrid(rg, degrees=[9], rotate=7)       # every shell carries its own random rotation
         # displaced Gaussians on both sides and of both signs: harmonic components of either sign, some of one sign only
         cs, al, cf = [np.zeros(3), np.array([0.0, 0.0, -0.3]), np.array([0.25, 0.0, 0.0])], [1.0, 2.5, 2.0], [1.0, 0.5, -0.4]
         v = po.solve_poisson_bvp(ag, rho(ag.points, cs, al, cf), itf, include_origin=True, remove_large_pts=10.0)(q)
